@@ -46,8 +46,8 @@ def run_harness(exe, args, timeout):
 def model_key(c, drv, v):
     """The mechanism of a failed `repeat the get` case, decided on the MODEL: the model's own account of the first
     call (branch taken, whether the new build list has the resolved version). Only these mechanisms are known
-    findings (D15, D15b, D15c); every other idempotence failure stays a violation."""
-    if not drv or v.get("kind") != "get-not-idempotent" or not v.get("line"):
+    findings (D15, D15b, D15c, D31); every other idempotence failure stays a violation."""
+    if not drv or v.get("kind") not in ("get-not-idempotent", "get-fault-swallowed") or not v.get("line"):
         return None
     try:
         outs = c.run_driver(drv, [v["line"]], timeout=120)
@@ -59,6 +59,10 @@ def model_key(c, drv, v):
     if not ans.startswith("ok:") or len(f) != 5:
         return None
     branch, landed, stable = f[1], f[3], f[4]
+    if v.get("kind") == "get-fault-swallowed":
+        # a failed fetch during a downgrade: mvs.Downgrade excludes the module instead of failing (D31); in every other
+        # branch a swallowed fault is a violation
+        return "get-downgrade-swallows-load-error" if branch == "down" else None
     if landed == "1":
         # the call landed, but the query itself resolves to another version against the new build list
         return "get-query-reresolves" if stable == "0" else None
